@@ -75,7 +75,7 @@ func GatherOperations(specDoc Provider, operationIDs []string) map[string]OpRef 
 		}
 
 		oo, found := operations[nm]
-		if found && oo.Method != opr.Method && oo.Path != opr.Path {
+		if found && (oo.Method != opr.Method || oo.Path != opr.Path) {
 			nm = opr.Key
 		}
 
